@@ -25,7 +25,7 @@ func vc12Seeds(dir string, rng *vh.Rng) ([]c12h.Seed, error) {
 				key = rng.Bytes(1 + rng.Intn(10))
 			}
 			if err := m.Add(key, rng.Bytes(n)); err != nil {
-				return nil, err
+				return seeds, err
 			}
 		}
 		if i%2 == 0 {
